@@ -35,7 +35,7 @@ CONSTANTS FaultKinds,     \* subset of {"none","drop","rename","restage","cycle"
 VARIABLES mw,       \* the mutated workflow: [comps: Seq of named components, gvars: set of defined global variables]
           fault,    \* the fault that was applied
           verdict   \* Verdict(mw)
-vvars == <<comps, phase, order, out, mw, fault, verdict>>
+vvars == <<comps, svals, phase, order, out, mw, fault, verdict>>
 
 ---------------------------------------------------------------------------
 (* Option sites.  A key site is applicable where the key is present in the rendered component. *)
@@ -105,8 +105,8 @@ Mutant(ws, f) ==
 ---------------------------------------------------------------------------
 (* DECLARATIVE: what a structurally executable workflow is *)
 UsedVars(c) == (IF c.rep \in {"vg", "vs", "vc"} THEN {VarOf(c.rep)} ELSE {}) \cup (IF c.msg THEN {"msg"} ELSE {})
-(* the stage-1 scope defines rs, a component with rep = "vc" defines rc itself *)
-Defined(m, c, v) == v \in m.gvars \/ (v = "rs" /\ c.stage = 1) \/ (v = "rc" /\ c.rep = "vc")
+(* a stage scope defines rs when svals says so (C11 runs with svals = <<0, 2>>), a component with rep = "vc" defines rc itself *)
+Defined(m, c, v) == v \in m.gvars \/ (v = "rs" /\ StageVal(c.stage) > 0) \/ (v = "rc" /\ c.rep = "vc")
 
 UniqueIdsV(m) == \A i, j \in 1..Len(m.comps) : i # j => ~ (m.comps[i].stage = m.comps[j].stage /\ m.comps[i].name = m.comps[j].name)
 ResolvesV(m) == \A c \in 1..Len(m.comps) : \A k \in 1..Len(m.comps[c].refs) :
@@ -162,11 +162,11 @@ Mutate(f) == /\ phase = "build" /\ WellFormed(comps)
              /\ fault' = f
              /\ mw' = Mutant(comps, f)
              /\ verdict' = Verdict(Mutant(comps, f))
-             /\ UNCHANGED <<comps, order, out>>
+             /\ UNCHANGED <<comps, svals, order, out>>
 
 PlainKinds == {"none", "drop", "rename", "restage", "cycle", "dup"}
 (* the builder actions of Replicate, leaving the new variables alone *)
-AddComponentV(n, s, r, g) == AddComponent(n, s, r, g) /\ UNCHANGED <<mw, fault, verdict>>
+AddComponentV(n, s, r, g) == AddComponent(n, s, r, g, 0, FALSE) /\ UNCHANGED <<mw, fault, verdict>>   \* no private variables here
 AddRefV(p, sp, pa, m, st) == AddRef(p, sp, pa, m, st) /\ UNCHANGED <<mw, fault, verdict>>
 
 NextV == \/ \E n \in Names, s \in Stages, r \in RepChoices, g \in AggChoices : AddComponentV(n, s, r, g)
